@@ -96,8 +96,13 @@ class Src:
         self.pos = self.i = 0
         self.over = None
         self.odd = None
+        self.calls = 0
 
     def read(self, n=None):
+        # a budget in STEPS: far more source calls than any terminating history can make
+        self.calls += 1
+        if self.calls > 100000 + 200 * len(self.data):
+            raise HangSteps()
         if n is None or n <= 0:
             self.odd = n
             n = len(self.data) if n is None or n < 0 else 0
@@ -153,19 +158,52 @@ class Hang(BaseException):
     pass
 
 
+class HangSteps(Hang):
+    """deterministic: the step budget of the scripted source was exhausted"""
+
+
 def _alarm(*a):
     raise Hang()
 
 
-def guarded(f, *a, limit=3.0):
-    """run one case on the real code under a 3 s watchdog (a hang is an observation)"""
+def guarded(f, *a, limit=None):
+    """Run one case on the real code under a watchdog.  The budget is the CPU time of THIS process
+    (ITIMER_PROF), not wall-clock time, so machine load cannot make it fire; the first-stage limit is
+    max(5 s, 20 x the median case time of this run).  An expiry is never reported directly: the caller
+    re-runs the case alone under CONFIRM_LIMIT (confirm_hang) and reports a hang only if it reproduces."""
     import signal
-    signal.signal(signal.SIGALRM, _alarm)
-    signal.setitimer(signal.ITIMER_REAL, limit)
+    import time
+    if limit is None:
+        ts = _TIMES
+        med = sorted(ts)[len(ts) // 2] if len(ts) >= 50 else 0.0
+        limit = max(5.0, 20.0 * med)
+    signal.signal(signal.SIGPROF, _alarm)
+    t0 = time.process_time()
+    signal.setitimer(signal.ITIMER_PROF, limit)
     try:
         return f(*a)
     finally:
-        signal.setitimer(signal.ITIMER_REAL, 0)
+        signal.setitimer(signal.ITIMER_PROF, 0)
+        if len(_TIMES) < 5000:
+            _TIMES.append(time.process_time() - t0)
+
+
+_TIMES = []
+CONFIRM_LIMIT = 60.0      # CPU seconds of the re-run that must also expire before a hang is reported
+
+
+def confirm_hang(ctx, is_hang, f, *a):
+    """first-stage result -> final result: a watchdog expiry is re-run alone, fresh, under the generous
+    limit; only a reproduced expiry stays a hang"""
+    r = guarded(f, *a)
+    if not is_hang(r):
+        return r
+    ctx.count('stall-retried')
+    ctx.cov['stall_retried'] = ctx.cov.get('stall_retried', 0) + 1
+    r2 = guarded(f, *a, limit=CONFIRM_LIMIT)
+    if not is_hang(r2):
+        ctx.count('stall-not-reproduced')
+    return r2
 
 
 def run_sync(mods, case):
@@ -186,6 +224,9 @@ def run_sync(mods, case):
                     stack[-1].exhaust()
                     stack.pop()
                 outs.append(('bytes', b''))
+        except HangSteps:
+            outs.append(('hang', 'steps'))
+            break
         except Hang:
             outs.append(('hang',))
             break
@@ -574,7 +615,11 @@ def nontrivial(case, impl_res):
 
 
 def run_cases(ctx, mods, model, cases, sync, tag):
-    impls = [guarded(run_sync if sync else run_async, mods, c) for c in cases]
+    def hung(r):
+        o = r[0] if sync else [x[0] for x in r]
+        return bool(o) and o[-1] == ('hang',)        # ('hang', 'steps') is deterministic: not re-run
+
+    impls = [confirm_hang(ctx, hung, run_sync if sync else run_async, mods, c) for c in cases]
     spec_outs = model.run_many([spec_wire(c, sync) for c in cases])
     model_outs = model.run_many([model_wire(c, sync) for c in cases])
     obs = [(im[0] if sync else im) for im in impls]
@@ -621,57 +666,128 @@ def cy_worker(argv):
         out.flush()
 
 
-def run_cy(ctx, cases):
-    """observations of the Cython twin for all cases; a case on which the worker stalls is a hang"""
+def child_cpu(pid):
+    """CPU seconds (user + system) consumed so far by a child process"""
+    import os
+    try:
+        with open('/proc/%d/stat' % pid) as fh:
+            f = fh.read().rsplit(')', 1)[1].split()
+        return (int(f[11]) + int(f[12])) / os.sysconf('SC_CLK_TCK')
+    except Exception:  # noqa: BLE001 - gone
+        return None
+
+
+def cy_session(ctx, path, start, ncases, results, limit):
+    """one child process from case [start]; returns the index of a case on which the child burnt [limit]
+    CPU seconds without finishing it (None: all done / child ended).  The budget is the CHILD'S CPU time
+    since its last progress line, so machine load cannot trigger it."""
     import base64
     import os
     import pickle
     import select
     import subprocess
     import sys
+    proc = subprocess.Popen([sys.executable, '-u', os.path.abspath(__file__), '--cy-worker', ctx.stage, path,
+                             str(start)], stdout=subprocess.PIPE, stderr=subprocess.DEVNULL,
+                            env=dict(os.environ, VERIF_REPO=common.REPO))
+    current, buf, mark = start, b'', 0.0
+    stalled = None
+    try:
+        while True:
+            r, _, _ = select.select([proc.stdout], [], [], 0.5)
+            if not r:
+                cpu = child_cpu(proc.pid)
+                if cpu is None:
+                    break
+                if cpu - mark >= (limit(current) if callable(limit) else limit):
+                    stalled = current
+                    break
+                continue
+            chunk = os.read(proc.stdout.fileno(), 1 << 20)
+            if not chunk:
+                break
+            buf += chunk
+            while b'\n' in buf:
+                line, buf = buf.split(b'\n', 1)
+                if line.startswith(b'S '):
+                    current = int(line[2:])
+                    mark = child_cpu(proc.pid) or mark
+                elif line.startswith(b'R '):
+                    i, outs, over, odd = pickle.loads(base64.b64decode(line[2:]))
+                    results[i] = (outs, SrcInfo(over, odd))
+                    current = i + 1
+    finally:
+        proc.kill()
+        proc.wait()
+    return stalled, current
+
+
+def run_cy(ctx, cases):
+    """observations of the Cython twin for all cases.  A first-stage stall (5 CPU-seconds of the child on
+    one case) is never reported directly: that case is re-run ALONE in a fresh child under CONFIRM_LIMIT
+    CPU-seconds; it is a hang only if it stalls again.  Once a hang was confirmed in this run, later
+    first-stage stalls on cases of the same shape (source shorter than the declared length) are neither
+    confirmed again nor reported: they are skipped and counted."""
+    import os
+    import pickle
     import tempfile
-    fd, path = tempfile.mkstemp(prefix='c14-cy.', suffix='.pkl')
-    with os.fdopen(fd, 'wb') as fh:
-        pickle.dump(cases, fh)
+
+    def dump(cs):
+        fd, path = tempfile.mkstemp(prefix='c14-cy.', suffix='.pkl')
+        with os.fdopen(fd, 'wb') as fh:
+            pickle.dump(cs, fh)
+        return path
+
+    path = dump(cases)
     results = [None] * len(cases)
     start = 0
     try:
         while start < len(cases):
-            proc = subprocess.Popen([sys.executable, '-u', os.path.abspath(__file__), '--cy-worker', ctx.stage, path,
-                                     str(start)], stdout=subprocess.PIPE, stderr=subprocess.DEVNULL,
-                                    env=dict(os.environ, VERIF_REPO=common.REPO))
-            current, buf = start, b''
-            stalled = False
-            while True:
-                r, _, _ = select.select([proc.stdout], [], [], 2.5)
-                if not r:
-                    stalled = True
-                    break
-                chunk = os.read(proc.stdout.fileno(), 1 << 20)
-                if not chunk:
-                    break
-                buf += chunk
-                while b'\n' in buf:
-                    line, buf = buf.split(b'\n', 1)
-                    if line.startswith(b'S '):
-                        current = int(line[2:])
-                    elif line.startswith(b'R '):
-                        i, outs, over, odd = pickle.loads(base64.b64decode(line[2:]))
-                        results[i] = (outs, SrcInfo(over, odd))
-                        current = i + 1
-            proc.kill()
-            proc.wait()
-            if stalled or results[current:current + 1] == [None]:
+            def first_stage(i):
+                # after a confirmed hang, stalls on cases of the same shape are only skipped (never
+                # reported), so a shorter first-stage budget there costs nothing but time
+                shape = i < len(cases) and cases[i]['maxlen'] > len(cases[i]['data'])
+                return 2.0 if (shape and _CY_CONFIRMED.get('short')) else 5.0
+
+            stalled, current = cy_session(ctx, path, start, len(cases), results, first_stage)
+            if stalled is None:
                 if current < len(cases) and results[current] is None:
-                    results[current] = ([('hang',)] if stalled else [('crash', 'worker-died', '')], SrcInfo(None, None))
-                start = current + 1
+                    # the child died on this case without output (e.g. a crash of the extension)
+                    results[current] = ([('crash', 'worker-died', '')], SrcInfo(None, None))
+                    start = current + 1
+                else:
+                    start = current
+                continue
+            c = cases[stalled]
+            short = c['maxlen'] > len(c['data'])
+            ctx.count('stall-retried')
+            ctx.cov['stall_retried'] = ctx.cov.get('stall_retried', 0) + 1
+            if short and _CY_CONFIRMED.get('short'):
+                ctx.count('cyutil-stall-same-shape-as-confirmed-hang-skipped')
+                results[stalled] = 'skip'
             else:
-                start = current
-            if all(r is not None for r in results):
-                break
+                one = dump([c])
+                try:
+                    single = [None]
+                    st2, _ = cy_session(ctx, one, 0, 1, single, CONFIRM_LIMIT)
+                finally:
+                    os.unlink(one)
+                if st2 is not None:
+                    results[stalled] = ([('hang',)], SrcInfo(None, None))
+                    if short:
+                        _CY_CONFIRMED['short'] = True
+                elif single[0] is not None:
+                    ctx.count('stall-not-reproduced')
+                    results[stalled] = single[0]
+                else:
+                    results[stalled] = ([('crash', 'worker-died', '')], SrcInfo(None, None))
+            start = stalled + 1
     finally:
         os.unlink(path)
     return results
+
+
+_CY_CONFIRMED = {}
 
 
 _PREFIX = {}
@@ -712,6 +828,11 @@ def prefix_twin(mods):
 def run_cy_cases(ctx, mods, model, cases, spec_outs, model_outs, tag):
     ctx.cov['cyutil_reader'] = 'built twin found in $VERIF_REPO and run through the sync correspondence'
     impls = run_cy(ctx, cases)
+    keep = [i for i, im in enumerate(impls) if im != 'skip' and im is not None]
+    cases = [cases[i] for i in keep]
+    spec_outs = [spec_outs[i] for i in keep]
+    model_outs = [model_outs[i] for i in keep]
+    impls = [impls[i] for i in keep]
     obs = [im[0] for im in impls]
     ok = [abnormal(o) is None for o in obs]
     verdicts = iter(model.run_many([oracle_wire(c, True, o) for c, o, k in zip(cases, obs, ok) if k]))
@@ -725,7 +846,7 @@ def run_cy_cases(ctx, mods, model, cases, spec_outs, model_outs, tag):
             same = False
             if short:
                 try:
-                    pre, _ = guarded(run_sync, pre_mods, case, limit=1.0)
+                    pre, _ = guarded(run_sync, pre_mods, case, limit=2.0)
                 except Exception:  # noqa: BLE001
                     pre = None
                 # a hang inside the C code is only known for the case as a whole
